@@ -615,7 +615,7 @@ def test_trim(case, note):
 def excision_case(draw):
     p = draw(st.sampled_from(ORDERS))
     lo = min_n(p, "no boundary")
-    shape = [draw(st.integers(lo, lo + 20)) for _ in range(3)]
+    shape = [draw(st.integers(lo, lo + 24)) for _ in range(3)]
     if draw(st.booleans()):
         # centre near the middle of the box (the usual use), window inside
         # the grid when the grid is large enough
@@ -682,7 +682,9 @@ def test_excision(case, note):
         note.fail("init:raises", dict(error=str(e)))
         return
     if (fd.Nx, fd.Ny, fd.Nz) != tuple(shape) or fd.x.shape != tuple(shape):
-        raise HarnessError("dyadic grid not exact")
+        # even a dyadic grid (exact arithmetic) has the wrong size
+        note.fail("grid-size", dict(want=shape, got=list(fd.x.shape)))
+        return
     if [int(fd.ixcenter), int(fd.iycenter), int(fd.izcenter)] != c:
         note.fail("center-index", dict(
             got=[int(fd.ixcenter), int(fd.iycenter), int(fd.izcenter)],
